@@ -9,7 +9,8 @@ from props import answers
 from props.c18 import lean_order_worlds
 
 THEOREMS = ["InfOCF.C19_constraint_iff", "InfOCF.C19_system_iff", "InfOCF.C19_two_sums_wrong", "InfOCF.C19_incremental",
-            "InfOCF.C19_fast_eq_alt", "InfOCF.C17_front_loop_exact", "InfOCF.C19_mask_eq_eval", "InfOCF.C19_pareto_box", "InfOCF.C19_zero_prior_is_crep"]
+            "InfOCF.C19_fast_eq_alt", "InfOCF.C17_front_loop_exact", "InfOCF.C19_mask_eq_eval", "InfOCF.C19_pareto_box", "InfOCF.C19_zero_prior_is_crep", "InfOCF.C19_none_cert_sound",
+            "InfOCF.C19_none_cert_revOk"]
 RULE = ("random prior rankings over 1-6 atoms (zero, random, sparse) x 1-4 revision conditionals (literal and compound, duplicates of "
         "antecedents, unfalsifiable and contradictory ones) x gamma modes (gamma+ fixed to zero / free) x fixed-value maps: c_revision's "
         "result is checked by the driver (non-negative integers, fixed values respected, revised ranking accepts every revision "
@@ -104,6 +105,18 @@ def impl_eval(case):
                 except Exception as e:  # noqa: BLE001
                     res.append(("err", f"{type(e).__name__}: {e}"[:200]))
             out["results"] = res
+            # "returns nothing": build a refutation certificate (multipliers by z3 as an LP search; CHECKED by the driver, rcert)
+            try:
+                from props import ccert
+
+                wt = [tuple(ch == "1" for ch in w) for w in worlds]
+                certs = {}
+                for mi, (mode, r) in enumerate(zip(case["modes"], res)):
+                    if r[0] == "ok" and r[1] is None and not mode.get("fixed_minus") and not mode.get("fixed_plus"):
+                        certs[mi] = ccert.build_none_cert(n, list(case["ranks"]), [(b, a) for _, b, a in case["conds"]], bool(mode["gpz"]), wt)
+                out["none_cert"] = certs
+            except Exception as e:  # noqa: BLE001
+                out["none_cert_err"] = f"{type(e).__name__}: {e}"[:200]
             # the enumerated Pareto front (gamma+ = 0, nothing fixed), bounded
             if case.get("front"):
                 import signal
@@ -137,6 +150,14 @@ def driver_lines(case, impl):
             if not mode.get("fixed_minus") and not mode.get("fixed_plus"):
                 lines.append(f"crevsearch {n} {CUBE if mode['gpz'] else 2} {1 if mode['gpz'] else 0} {rk} {R}")
                 tags.append(("search", mi))
+                cert = (impl.get("none_cert") or {}).get(mi)
+                if cert and cert["status"] == "ok":
+                    from props import ccert
+                    lines.append(f"rcert {n} {1 if mode['gpz'] else 0} {rk} {R} {ccert.rpool_text(cert['pool'])}")
+                    tags.append(("rcert", mi))
+                elif cert and cert["status"] == "counter":
+                    lines.append(f"crev {n} {rk} {R} " + " ".join(map(str, cert["gp"])) + " " + " ".join(map(str, cert["gm"])))
+                    tags.append(("rcert_cm", mi))
             continue
         d = res[1]
         try:
@@ -217,7 +238,10 @@ def compare(case, impl, resp, tags):
                     if len(vecs) < FRONT_MAX and gm0 not in vecs:
                         fail("the vector c_revision returns is missing from the enumerated Pareto front", vecs, list(gm0))
     tags, resp = [t for t in tags if t[0] != "front"], [r for t, r in zip(tags, resp) if t[0] != "front"]
-    byi = {t[1]: (t[0], r) for t, r in zip(tags, resp)}
+    byi = {t[1]: (t[0], r) for t, r in zip(tags, resp) if t[0] in ("search", "check")}
+    rc = {t[1]: r for t, r in zip(tags, resp) if t[0] == "rcert"}
+    rcm = {t[1]: r for t, r in zip(tags, resp) if t[0] == "rcert_cm"}
+    impl["none_certified"] = {mi: (r == "1") for mi, r in rc.items()}
     for mi, (mode, res) in enumerate(zip(case["modes"], impl.get("results", []))):
         label = ("gamma+ = 0" if mode["gpz"] else "gamma+ free") + (", fixed values" if mode.get("fixed_minus") or mode.get("fixed_plus") else "") + \
                 (", incremental model" if mode.get("use_model") else "")
@@ -228,6 +252,9 @@ def compare(case, impl, resp, tags):
         if d is None:
             if mi in byi and byi[mi][1].startswith("1"):
                 fail(f"returns nothing although parameters exist ({label})", None, byi[mi][1], mode)
+            elif mi in rcm and rcm[mi].split("|")[0] == "1":
+                cert = impl["none_cert"][mi]
+                fail(f"returns nothing although parameters exist ({label})", None, {"gamma+": cert["gp"], "gamma-": cert["gm"]}, mode)
             continue
         keys = [k for k, _, _ in case["conds"]]
         vals = {}
@@ -400,6 +427,12 @@ def run(ctx):
         ctx.bump("prior=" + ("zero" if not any(c["ranks"]) else "nonzero"))
         for mode, res in zip(c["modes"], impl.get("results", [])):
             ctx.bump("result=" + ("error" if res[0] == "err" else "none" if res[1] is None else "parameters"))
+        rc_ = {t[1]: r for t, r in zip(tags, resp) if t[0] == "rcert"}
+        for mi, cert in (impl.get("none_cert") or {}).items():
+            if cert["status"] == "ok":
+                ctx.bump("none_certified" if rc_.get(mi) == "1" else "none_certificate_rejected_by_driver")
+            else:
+                ctx.bump("none_uncertified:" + cert["status"])
         compound = any(core.f_depth(b) + core.f_depth(a) > 1 for _, b, a in c["conds"])
         if len(c["conds"]) >= 2 and (any(c["ranks"]) or compound):
             ctx.nontrivial.add(hash(json.dumps([c["ranks"], c["conds"], c["modes"]])))
